@@ -413,6 +413,10 @@ func aloneRingFamily(thorough bool) []rt {
 		out = append(out, rt{AloneCfg{LC: 3, LP: 0, PB: 2, DictCap: 1 << 26, BufSize: 4096, Matcher: 0}, "ladder", 1<<26 + 4096})
 		out = append(out, rt{AloneCfg{LC: 3, LP: 0, PB: 2, DictCap: 1 << 27, BufSize: 4096, Matcher: 0}, "ladder", 1<<27 + 4096})
 	}
+	// volume: rare coincidences inside the range coder (a range of exactly 2^24-1 before a
+	// normalisation, long runs of pending 0xff bytes) need megabytes of coder output
+	out = append(out, rt{AloneCfg{LC: 3, LP: 0, PB: 2, DictCap: 65536, BufSize: 4096, Matcher: 0}, "noise200", map[bool]int{false: 16 << 20, true: 96 << 20}[thorough]})
+	out = append(out, rt{AloneCfg{LC: 3, LP: 0, PB: 2, DictCap: 1 << 20, BufSize: 4096, Matcher: 0}, "farcopies", map[bool]int{false: 24 << 20, true: 96 << 20}[thorough]})
 	for k, p := range [][3]int{{3, 0, 2}, {0, 2, 0}, {1, 3, 2}, {4, 0, 4}, {0, 4, 0}, {2, 1, 3}} {
 		out = append(out, rt{AloneCfg{LC: p[0], LP: p[1], PB: p[2], DictCap: []int{4096, 65536}[k%2], BufSize: []int{4096, 273}[k/2%2], Matcher: k % 2}, "maxlenruns", 18000 + k})
 	}
